@@ -18,7 +18,7 @@ CONSTANTS
   AllowKF = {}
   KFInitOpts = TRUE
   KFV1Hist = TRUE
-  MaxOps = 6
+  MaxOps = 5
   Balanced = FALSE
   EmitMode = "none"
   BigSeries = {"s2"}
